@@ -35,6 +35,17 @@ Theorem C12_ac_complete :
   forall e1 e2, wf e1 = true -> ac comm e1 e2 -> sigv1 e1 = sigv1 e2.
 Proof. exact (ac_same_sig comm). Qed.
 
+(* (2b) exactness: equal signatures hold ONLY for AC-rearrangements — the signature classes are exactly
+   the congruence classes of commutativity + associativity of + and * *)
+Theorem C12_sig_exact :
+  forall e1 e2, wf e1 = true -> wf e2 = true -> sigv1 e1 = sigv1 e2 -> ac comm e1 e2.
+Proof. exact (sig_exact comm). Qed.
+Theorem C12_sig_iff_ac :
+  forall e1 e2, wf e1 = true -> wf e2 = true -> (sigv1 e1 = sigv1 e2 <-> ac comm e1 e2).
+Proof.
+  intros e1 e2 W1 W2. split; [exact (sig_exact comm e1 e2 W1 W2)|exact (ac_same_sig comm e1 e2 W1)].
+Qed.
+
 (* (3) the listed mutations change the signature *)
 Theorem C12_swap_noncomm :
   forall op a b, wf a = true -> wf b = true -> comm op = false ->
@@ -81,6 +92,8 @@ Proof. vm_compute. discriminate. Qed.
 
 Print Assumptions C12_sig_sound.
 Print Assumptions C12_ac_complete.
+Print Assumptions C12_sig_exact.
+Print Assumptions C12_sig_iff_ac.
 Print Assumptions C12_swap_noncomm.
 Print Assumptions C12_const_change.
 Print Assumptions C12_var_change.
